@@ -216,7 +216,46 @@ func renderAct(r *rand.Rand, name, arg string, last bool) (string, bool) {
 	return name + f[:1] + arg + closer, true
 }
 
+// emitOverrideSweep: independent of the random stream, every option followed by every other option
+// that writes (at least) the same fields of Options — its twin, its aliases, wider options — in the
+// same vector and split between environment and command line; and every option followed by an
+// empty word, a lone dash and a non-numeric word where its value (or optional number) would be.
+func emitOverrideSweep(emit func(op string, args ...string)) {
+	optionVocabulary()
+	enc := func(ws []string) string {
+		if len(ws) == 0 {
+			return "_"
+		}
+		bs := [][]byte{}
+		for _, w := range ws {
+			bs = append(bs, []byte(w))
+		}
+		return encStrList(bs)
+	}
+	for _, n := range optNames {
+		if accumulating[n] || accumulating["--"+strings.TrimPrefix(n, "--no-")] {
+			continue
+		}
+		f1 := optForms[n][0]
+		seconds := append([]string{n}, coveredBy(n)...)
+		for k, n2 := range seconds {
+			f2 := optForms[n2][len(optForms[n2])-1]
+			env := "_"
+			if k%2 == 1 {
+				env = "1"
+			}
+			emit("override", env, "_", enc(f1), enc(f2))
+		}
+		for _, junk := range []string{"", "-", "x"} {
+			emit("override", "_", "_", enc(f1), enc([]string{n, junk}))
+		}
+	}
+}
+
 func bindGen(r *rand.Rand, count int, emit func(op string, args ...string)) {
+	if count >= 1000 {
+		emitOverrideSweep(emit)
+	}
 	junk := []string{":", "+", ",", "execute", "(", ")", "a", "reload", "[", "]", "~", "up", "change-query", "x", " ", "::", ",,,", ",:", "+:", "pos", "put", "é"}
 	for i := 0; i < count; i++ {
 		switch r.Intn(8) {
